@@ -76,21 +76,29 @@ RECURSIVE SortedDue(_, _)
 SortedDue(q, S) == IF S = {} THEN <<>>
                    ELSE LET t == CHOOSE x \in S : \A u \in S \ {x} : Before(q, x, u)
                         IN <<t>> \o SortedDue(q, S \ {t})
-RECURSIVE Dispatch(_, _, _, _)
-\* hand every due item, in (when,id) order, to its worker if that worker is blocked in its receive; updateNext + re-insert
-Dispatch(s, w, q, d) ==
+RECURSIVE Dispatch(_, _, _, _, _, _)
+\* hand every due item, in (when,id) order, to its worker if that worker is blocked in its receive; updateNext + re-insert.
+\* A worker that has checkpointed but not yet reached its receive ("post") may reach it while the loop is iterating over
+\* the due items (the hand-off is a non-blocking send per item, the worker runs concurrently): cut[c] is the number of
+\* items the iteration has tried when worker c arrives, so items of its class at positions <= cut[c] are skipped and a
+\* later one can be handed over. cut[c] = number of due items: the worker does not arrive during this pass.
+Dispatch(s, pos, w, q, d, cut) ==
   IF s = <<>> THEN [wk |-> w, q |-> q, d |-> d]
   ELSE LET t == Head(s)
            c == Cls(t)
-       IN IF w[c].st = "ready"
-          THEN Dispatch(Tail(s),
+       IN IF w[c].st = "ready" \/ (w[c].st = "post" /\ pos > cut[c])
+          THEN Dispatch(Tail(s), pos + 1,
                         [w EXCEPT ![c] = [st |-> "got", t |-> t, sf |-> q[t].next, ra |-> q[t].when, ep |-> q[t].ep]],
                         [q EXCEPT ![t].next = q[t].next + Every(t), ![t].when = q[t].next + Every(t) + Offset(t)],
-                        [d EXCEPT ![t] = @ + 1])
-          ELSE Dispatch(Tail(s), w, q, d)
+                        [d EXCEPT ![t] = @ + 1], cut)
+          ELSE Dispatch(Tail(s), pos + 1, w, q, d, cut)
+
+NDue == Cardinality(DueNow)
+NoArrival == [w \in Workers |-> NDue]
+Cuts == [Workers -> 0..NDue]
 
 \* result of one iteration of the inner for-loop (everything between s.mu.Lock and s.mu.Unlock)
-PassResult ==
+PassResultWith(cut) ==
   IF Queued = {} THEN
      [when |-> None, timer |-> timer, lpc |-> "wait", wk |-> wk, q |-> queue, d |-> disp, idle |-> TRUE]
   ELSE IF MinWhen > now THEN
@@ -99,11 +107,12 @@ PassResult ==
      [when |-> IF NegReset THEN when ELSE MinWhen,
       timer |-> IF NegReset THEN now ELSE MinWhen,
       lpc |-> "wait", wk |-> wk, q |-> queue, d |-> disp, idle |-> TRUE]
-  ELSE LET r == Dispatch(SortedDue(queue, DueNow), wk, queue, disp)
+  ELSE LET r == Dispatch(SortedDue(queue, DueNow), 1, wk, queue, disp, cut)
            m == MinWhenOf(r.q)
        IN IF m = None THEN [when |-> None, timer |-> timer, lpc |-> "wait", wk |-> r.wk, q |-> r.q, d |-> r.d, idle |-> FALSE]
           ELSE IF m - now > 0 THEN [when |-> m, timer |-> m, lpc |-> "wait", wk |-> r.wk, q |-> r.q, d |-> r.d, idle |-> FALSE]
           ELSE [when |-> m, timer |-> timer, lpc |-> "pass", wk |-> r.wk, q |-> r.q, d |-> r.d, idle |-> FALSE]
+PassResult == PassResultWith(NoArrival)
 
 PassIsNoop == LET r == PassResult IN
   r.when = when /\ r.timer = timer /\ r.lpc = lpc /\ r.wk = wk /\ r.q = queue
@@ -198,7 +207,8 @@ LoopWake ==
 
 Pass ==
   /\ lpc = "pass"
-  /\ LET r == PassResult IN
+  /\ \E cut \in (IF \E w \in Workers : wk[w].st = "post" THEN Cuts ELSE {NoArrival}) :
+     LET r == PassResultWith(cut) IN
      /\ when' = r.when /\ timer' = r.timer /\ lpc' = r.lpc /\ wk' = r.wk /\ queue' = r.q /\ disp' = r.d
      /\ spins' = IF r.idle THEN spins + 1 ELSE spins
      /\ stale' = IF NegReset /\ r.idle /\ Queued # {} THEN stale ELSE {}
@@ -215,8 +225,12 @@ Start(w) ==
   /\ UNCHANGED <<prof, now, queue, when, timer, tick, lpc, epoch, last, disp, released, stale, spins, calls, nsched>>
 
 \* Execute returns (the executor is the harness: slow executors stay in "exec" for any number of steps)
+\* (replayable histories: an executor is not released while the loop is retrying two or more due items of that worker,
+\*  because which of them is handed over then depends on the moment the worker reaches its receive; MC_* and the trace
+\*  validation cover that race)
 Finish(w) ==
   /\ Ctl /\ OpsOK /\ wk[w].st = "exec"
+  /\ Discipline => Cardinality({t \in DueNow : Cls(t) = w}) <= 1
   /\ wk' = [wk EXCEPT ![w].st = "post"]
   /\ Log([a |-> "finish", w |-> w, t |-> wk[w].t, sf |-> wk[w].sf])
   /\ UNCHANGED <<prof, now, queue, when, timer, tick, lpc, epoch, last, disp, released, late, stale, spins, calls, nsched, runs>>
